@@ -114,8 +114,8 @@ structure HState where
   lastArg  : Option Nat := none                -- mpLastArg (index into cfg.args)
   inverted : Bool := false                     -- mInverted
   fromSrc  : Bool := false                     -- mReadMode != commandLine
-  /-- ghost: (argument index, value) in the order `assignValue` was entered -/
-  uses     : List (Nat × Option Word) := []
+  /-- ghost: (argument index, value — empty for "no value") in the order `assignValue` succeeded -/
+  uses     : List (Nat × Word) := []
   deriving Repr, Inhabited
 
 def defaultDest : Kind → DVal
@@ -131,6 +131,9 @@ def Cfg.initState (cfg : Cfg) (inits : List DVal) : HState :=
     globals := cfg.globals.map (fun g => { remaining := if g.kind = .allOf then g.keys else [] }) }
 
 /-! ## conversions and checks -/
+
+/-- `if (cond) throw E(...)` in the middle of a function -/
+def throwIf (c : Bool) (e : Exc) : Res Unit := if c then .throw e else .ok ()
 
 def digitVal (c : Char) : Option Nat :=
   if '0' ≤ c ∧ c ≤ '9' then some (c.toNat - 48) else none
@@ -158,20 +161,19 @@ def Check.run (c : Check) (val : Word) : Res Unit :=
   match c with
   | .lower v => do
     let n ← lexCastInt val
-    if n < v then .throw .underflow_error else pure ()
+    throwIf (n < v) .underflow_error
   | .upper v => do
     let n ← lexCastInt val
-    if n ≥ v then .throw .overflow_error else pure ()
+    throwIf (n ≥ v) .overflow_error
   | .range lo hi => do
     let n ← lexCastInt val
-    if n < lo then .throw .out_of_range
-    else if n ≥ hi then .throw .out_of_range else pure ()
+    throwIf (n < lo) .out_of_range
+    throwIf (n ≥ hi) .out_of_range
   | .values vs ic =>
-    if ic then
-      if vs.any (fun v => v.map toLowerAscii == val.map toLowerAscii) then pure () else .throw .out_of_range
-    else if vs.contains val then pure () else .throw .out_of_range
-  | .minLength n => if val.length < n then .throw .underflow_error else pure ()
-  | .maxLength n => if val.length > n then .throw .overflow_error else pure ()
+    if ic then throwIf (!vs.any (fun v => v.map toLowerAscii == val.map toLowerAscii)) .out_of_range
+    else throwIf (!vs.contains val) .out_of_range
+  | .minLength n => throwIf (val.length < n) .underflow_error
+  | .maxLength n => throwIf (val.length > n) .overflow_error
 
 /-- `TypedArgBase::check`: all checks in the order they were added -/
 def runChecks : List Check → Word → Res Unit
@@ -185,6 +187,10 @@ def Card.gotValue (c : Card) (cnt : Int) : Res Int :=
   | .max n => if n != -1 then (if cnt + 1 > n then .throw .runtime_error else .ok (cnt + 1)) else .ok cnt
   | .exact n => if cnt + 1 > n then .throw .runtime_error else .ok (cnt + 1)
   | .range _ hi => if hi != -1 then (if cnt + 1 > hi then .throw .runtime_error else .ok (cnt + 1)) else .ok cnt
+
+/-- `if (!skip && mpCardinality) mpCardinality->gotValue()` -/
+def countValue (skip : Bool) (c : Card) (cnt : Int) : Res Int :=
+  if skip then .ok cnt else c.gotValue cnt
 
 /-- `ICardinality::check()` at the end of the evaluation -/
 def Card.check (c : Card) (cnt : Int) : Res Unit :=
@@ -207,7 +213,7 @@ def splitSep (sep : Char) (s : Word) : List Word :=
 def assignVecLoop (d : ArgDef) : List Word → Bool → ArgSt → Res ArgSt
   | [], _, st => .ok st
   | tok :: rest, first, st => do
-    let cnt ← if first then pure st.cnt else d.card.gotValue st.cnt
+    let cnt ← countValue first d.card st.cnt
     runChecks d.checks tok
     let v ← lexCastInt tok
     let l := match st.dest with | .vec l => l | _ => []
@@ -233,17 +239,15 @@ def assignDest (d : ArgDef) (st : ArgSt) (value : Word) : Res ArgSt :=
     pure { st with dest := .str value, hasValueSet := true }
   | .level =>
     let cur := match st.dest with | .level n => n | _ => 0
-    if value.isEmpty then
-      if st.hasValueSet && !d.mixIncSet then .throw .runtime_error
-      else do
-        runChecks d.checks (toString (cur + 1)).toList
-        pure { st with dest := .level (cur + 1), incremented := true }
-    else
-      if !d.mixIncSet && (st.hasValueSet || st.incremented) then .throw .runtime_error
-      else do
-        runChecks d.checks value
-        let v ← lexCastInt value
-        pure { st with dest := .level v, hasValueSet := true }
+    if value.isEmpty then do
+      throwIf (st.hasValueSet && !d.mixIncSet) .runtime_error
+      runChecks d.checks (toString (cur + 1)).toList
+      pure { st with dest := .level (cur + 1), incremented := true }
+    else do
+      throwIf (!d.mixIncSet && (st.hasValueSet || st.incremented)) .runtime_error
+      runChecks d.checks value
+      let v ← lexCastInt value
+      pure { st with dest := .level v, hasValueSet := true }
   | .vecInt => assignVecLoop d (splitSep d.sep value) true st
 
 /-! ## constraint container -/
@@ -276,7 +280,7 @@ def pendingIdentified (k : Key) : List (Key × CType) → Res (List (Key × CTyp
 
 /-- `ConstraintContainer::checkRequired()` -/
 def pendingCheckRequired (p : List (Key × CType)) : Res Unit :=
-  if p.any (fun e => e.2 = .required) then .throw .runtime_error else pure ()
+  throwIf (p.any (fun e => e.2 = .required)) .runtime_error
 
 /-- `TypedArgBase::activateConstraints()` -/
 def activateConstraints : List (CType × List Key) → List (Key × CType) → List (Key × CType)
@@ -325,13 +329,13 @@ def Cfg.table (cfg : Cfg) : List (Key × ArgDef) := cfg.args.map (fun d => (d.ke
 
 /-- `TypedArgBase::assignValue( ignore_cardinality, value, inverted)` on argument `i` -/
 def assignValue (h : HState) (i : Nat) (d : ArgDef) (value : Word) : Res HState := do
-  if d.deprecated then .throw .runtime_error else pure ()
+  throwIf d.deprecated .runtime_error
   let st := h.args.getD i default
-  let cnt ← if !h.fromSrc then d.card.gotValue st.cnt else pure st.cnt
-  if h.inverted then .throw .runtime_error else pure ()          -- mAllowsInverting is never set in the fragment
+  let cnt ← countValue h.fromSrc d.card st.cnt
+  throwIf h.inverted .runtime_error          -- mAllowsInverting is never set in the fragment
   let st' ← assignDest d { st with cnt := cnt } value
   pure { h with args := h.args.set i st', pending := activateConstraints d.constraints h.pending,
-                uses := h.uses ++ [(i, if value.isEmpty then none else some value)] }
+                uses := h.uses ++ [(i, value)] }
 
 /-- `Handler::handleIdentifiedArg( hdl, key, value)`.  `ident` is the key handed to the
     constraint container (after the fix: the argument's own key) -/
@@ -423,7 +427,7 @@ def iterateArguments (cfg : Cfg) (h : HState) (argv : List Word) : Res HState :=
 /-- `ArgumentContainer::checkMandatoryCardinality()` -/
 def checkMandatoryCardinality : List ArgDef → List ArgSt → Res Unit
   | d :: ds, s :: ss => do
-    if d.mandatory && !s.hasValue d.kind then .throw .runtime_error else pure ()
+    throwIf (d.mandatory && !s.hasValue d.kind) .runtime_error
     d.card.check s.cnt
     checkMandatoryCardinality ds ss
   | _, _ => pure ()
@@ -444,23 +448,35 @@ def readFileLines (cfg : Cfg) : List Word → HState → Res HState
       let h' ← iterateArguments cfg h (ArgString.defaultProgName :: ArgString.splitString line)
       readFileLines cfg rest h'
 
-/-- `Handler::evalArguments( argc, argv)` -/
-def evalArguments (cfg : Cfg) (h : HState) (src : Sources) (argv : List Word) : Res HState := do
-  let h ← match src.file with
-    | some lines => do
-      let h' ← readFileLines cfg lines { h with fromSrc := true }
-      pure { h' with fromSrc := false }
-    | none => pure h
-  let h ← match src.env with
-    | some e => do
-      let h' ← iterateArguments cfg { h with fromSrc := true } (ArgString.defaultProgName :: ArgString.splitString e)
-      pure { h' with fromSrc := false }
-    | none => pure h
-  let h ← iterateArguments cfg h argv
-  let h := { h with lastArg := none }             -- ResetAtExit
+/-- `if (mReadProgramArguments) readEvalFileArguments( argv[0])` -/
+def evalFileSource (cfg : Cfg) (file : Option (List Word)) (h : HState) : Res HState :=
+  match file with
+  | some lines => do
+    let h' ← readFileLines cfg lines { h with fromSrc := true }
+    pure { h' with fromSrc := false }
+  | none => pure h
+
+/-- `if (mCheckEnvVar) checkReadEnvVarArgs( argv[0])` -/
+def evalEnvSource (cfg : Cfg) (env : Option Word) (h : HState) : Res HState :=
+  match env with
+  | some e => do
+    let h' ← iterateArguments cfg { h with fromSrc := true } (ArgString.defaultProgName :: ArgString.splitString e)
+    pure { h' with fromSrc := false }
+  | none => pure h
+
+/-- the final checks of `evalArguments` (after `mpLastArg` was reset by ResetAtExit) -/
+def endChecks (cfg : Cfg) (h : HState) : Res HState := do
+  let h := { h with lastArg := none }
   checkMandatoryCardinality cfg.args h.args
   pendingCheckRequired h.pending
   checkGlobals cfg.globals h.globals
   pure h
+
+/-- `Handler::evalArguments( argc, argv)` -/
+def evalArguments (cfg : Cfg) (h : HState) (src : Sources) (argv : List Word) : Res HState := do
+  let h ← evalFileSource cfg src.file h
+  let h ← evalEnvSource cfg src.env h
+  let h ← iterateArguments cfg h argv
+  endChecks cfg h
 
 end CelmaVerif.ProgArgs
